@@ -39,14 +39,46 @@ REQUIRED_TAGS = ['op=circle', 'op=ellipse', 'op=arc', 'op=three', 'op=ngon', 'op
                  'normal=nonunit', 'stream=exact', 'stream=float', 'spans=1', 'spans=2', 'spans=3', 'theta<0',
                  'theta=2pi', 'theta=threshold', 'raises']
 
-KNOWN_LABELS = ['three-point-arc-wrong-end', 'three-point-arc-nan-half-turn', 'three-point-arc-half-turn-accuracy', 'arc-2pi-ignores-xaxis', 'near-ez-normal-misplaced',
+KNOWN_LABELS = ['center-within-1e-8-of-origin-ignored', 'three-point-arc-wrong-end', 'three-point-arc-small-radius-absolute-tolerance', 'three-point-arc-nan-half-turn', 'three-point-arc-half-turn-accuracy', 'arc-2pi-ignores-xaxis', 'near-ez-normal-misplaced',
                 'volume-revolve-negative-theta-reversed', 'cylinder-height-scaled-by-axis-norm']
 
 PI_F = F(math.pi)
 W_F = F(1.0 / sqrt(2))
 S2_F = F(sqrt(2))
 CONSTS = [PI_F, W_F, S2_F]
-TOL_CP = 1e-12  # splipy.state.controlpoint_absolute_tolerance
+
+
+def tol_cp():
+    """splipy.state.controlpoint_absolute_tolerance of the implementation under test (read at run time)."""
+    from vlib import impl as _impl
+    sp = _impl.load()[0]
+    import importlib
+    return float(importlib.import_module('splipy.state').controlpoint_absolute_tolerance)
+
+
+_three_form = None
+
+
+def three_point_form():
+    """Which branch test `circle_segment_from_three_points` of the tree under test uses — read off its source:
+    'signs' = component-wise sign comparison with `controlpoint_absolute_tolerance` (model `sameSigns`),
+    'dot'   = sign of `np.dot(w2, normal)` (model `keepDot`)."""
+    global _three_form
+    if _three_form is None:
+        import importlib
+        import inspect
+        from vlib import impl as _impl
+        _impl.load()
+        src = inspect.getsource(importlib.import_module('splipy.curve_factory').circle_segment_from_three_points)
+        code = '\n'.join(l.split('#')[0] for l in src.splitlines())
+        if 'controlpoint_absolute_tolerance' in code and 'np.sign' in code:
+            _three_form = 'signs'
+        elif 'np.dot(w2' in code.replace(' ', '').replace('np.dot(w2', 'np.dot(w2') or 'dot(w2,normal)' in code.replace(' ', ''):
+            _three_form = 'dot'
+        else:
+            raise RuntimeError('circle_segment_from_three_points: unrecognised branch test; update harness/props/C13.py '
+                               'and Fac.threePointDataWith')
+    return _three_form
 
 
 # ---------------------------------------------------------------------------------------------
@@ -227,7 +259,10 @@ def gen_theta(rng):
     return rng.uniform(-2 * pi, 2 * pi), None, 'float'
 
 
-def gen_triple(rng, tier):
+def gen_triple(rng, tier, kind=None):
+    """Non-collinear triple.  kind: 'unit' (O(1) coordinates), 'small' (circumradius 1e-6 … 1e-3),
+    'large' (1e3 … 1e6), 'flat' (nearly collinear: the middle point is 1e-3 … 1e-1 of the chord off it)."""
+    kind = kind or rng.choice(['unit'] * 6 + ['small', 'small', 'large', 'flat'])
     r = rng.random()
     if r < 0.3:
         d = [2, 2, 2]
@@ -235,7 +270,45 @@ def gen_triple(rng, tier):
         d = [rng.choice([2, 3]) for _ in range(3)]
     else:
         d = [3, 3, 3]
+    if kind in ('small', 'large'):
+        # three angles on a circle of the requested radius in a random plane through a random centre
+        rad = 10.0 ** (rng.uniform(-6, -3) if kind == 'small' else rng.uniform(3, 6))
+        while True:
+            ang = sorted(rng.uniform(0, 2 * pi) for _ in range(3))
+            if min(ang[1] - ang[0], ang[2] - ang[1], 2 * pi - ang[2] + ang[0]) > 0.3:
+                break
+        if rng.random() < 0.5:
+            ang = ang[::-1]
+        k = rng.randrange(3)
+        ang = ang[k:] + ang[:k]
+        if max(d) == 2:
+            e1, e2, ctr = np.array([1.0, 0, 0]), np.array([0, 1.0, 0]), np.array([rng.uniform(-1, 1) * rad, rng.uniform(-1, 1) * rad, 0.0])
+        else:
+            n = np.array([rng.uniform(-1, 1) for _ in range(3)])
+            n /= np.linalg.norm(n)
+            e1 = np.cross(n, [1.0, 0.3, -0.2])
+            e1 /= np.linalg.norm(e1)
+            e2 = np.cross(n, e1)
+            ctr = np.array([rng.uniform(-1, 1) * rad for _ in range(3)])
+            d = [3, 3, 3]
+        return [(ctr + rad * (cos(a) * e1 + sin(a) * e2))[:k_].tolist() for a, k_ in zip(ang, d)]
+    if kind == 'flat' and max(d) == 3:
+        d = [3, 3, 3]
     while True:
+        if kind == 'flat':
+            a = np.array([rng.uniform(-3, 3) for _ in range(3)])
+            b = np.array([rng.uniform(-3, 3) for _ in range(3)])
+            if max(d) == 2:
+                a[2] = b[2] = 0.0
+            if np.linalg.norm(b - a) < 0.5:
+                continue
+            off = np.cross(b - a, [0.0, 0.0, 1.0] if max(d) == 2 else [rng.uniform(-1, 1) for _ in range(3)])
+            if np.linalg.norm(off) < 1e-3:
+                continue
+            off *= 10.0 ** rng.uniform(-3, -1) * np.linalg.norm(b - a) / np.linalg.norm(off) * rng.choice([1, -1])
+            m = a + rng.uniform(0.2, 0.8) * (b - a) + off
+            P = [a[:d[0]].tolist(), m[:d[1]].tolist(), b[:d[2]].tolist()]
+            return P
         if rng.random() < 0.5:
             P = [[gen.dyadic(rng, -4, 4, 2) for _ in range(k)] for k in d]
         else:
@@ -260,6 +333,7 @@ def generate(rng, tier):
     # minimal reproducers of the defect classes seen on the pinned tree (one per class, first in the run)
     S.append({'op': 'three', 'x': [[1.0, 0.0], [0.0, -1.0], [0.6, -0.8]], 'stream': 'float', 'tkind': 'sentinel'})
     S.append({'op': 'three', 'x': [[-2.0, 0.75, 1.0], [-2.0, 0.75, 1.5], [1.75, -1.0, 1.5]], 'stream': 'float', 'tkind': 'right-angle'})
+    S.append({'op': 'three', 'x': [[5e-5 * cos(a), 5e-5 * sin(a)] for a in (0.0, 2.5, 4.5)], 'stream': 'float', 'tkind': 'small'})
     S.append({'op': 'arc', 'theta': 2 * pi, 'r': 1.0, 'center': [0, 0, 0], 'normal': [0, 0, 1], 'xaxis': [0.0, 1.0, 0.0],
               'tkind': 'threshold', 'nkind': 'axis', 'stream': 'exact', 'exact': {'naux': ['1', '0', '1', '0'], 'lam': '1'}})
     S.append({'op': 'circle', 'r': 1.0, 'type': 'p2C0', 'normal': [0.0, 2.0 ** -30, 1.0], 'xaxis': [1.0, 0.0, 0.0],
@@ -321,6 +395,23 @@ def generate(rng, tier):
                   'nkind': 'near-ez', 'stream': 'float'})
     for _ in range(rep(250, 2500)):
         S.append({'op': 'three', 'x': gen_triple(rng, tier), 'stream': 'float'})
+    for kind in ('small', 'large', 'flat'):
+        for _ in range(rep(25, 300)):
+            S.append({'op': 'three', 'x': gen_triple(rng, tier, kind), 'stream': 'float', 'tkind': kind})
+    # default x-axis (1,0,0) with a non-default normal orthogonal to it; theta = 0; centre within 1e-8 of the origin
+    for nrm in ([0, 1, 0], [0, -1, 0], [0, 3, 4], [0.0, -0.6, 0.8], [0, 0, -1], [0, 1, -1]):
+        ex = {'naux': [fs(F(x)) for x in float_naux(nrm)]} if nrm in ([0, 1, 0], [0, -1, 0], [0, 0, -1]) else None
+        for op, extra in (('circle', {'r': 1.5, 'type': 'p2C0'}), ('circle', {'r': 0.5, 'type': 'p4C1'}),
+                          ('arc', {'theta': 2.0, 'r': 2.0, 'tkind': 'float'}), ('ellipse', {'r1': 2.0, 'r2': 0.5, 'type': 'p2C0'}),
+                          ('disc', {'r': 1.0, 'type': 'radial'}), ('sphere', {'r': 1.0}), ('torus', {'r1': 0.5, 'r2': 2.0}),
+                          ('cylinder', {'r': 1.0, 'h': 2.0})):
+            sp_ = dict(extra)
+            sp_.update({'op': op, 'normal': list(nrm), 'xaxis': [1, 0, 0], 'center': [0.5, -1.0, 2.0], 'nkind': 'default-xaxis',
+                        'stream': 'float'})
+            S.append(sp_)
+    S.append(placed(rng, {'op': 'arc', 'theta': 0.0, 'r': 1.0, 'tkind': 'zero', 'raises': True}, 'axis'))
+    S.append({'op': 'circle', 'r': 1e-9, 'type': 'p2C0', 'normal': [0, 0, 1], 'xaxis': [1, 0, 0], 'center': [5e-9, 0.0, 0.0],
+              'nkind': 'tiny-center', 'stream': 'float'})
     # right angle at x1 (x0, x2 antipodal on the circumcircle: theta = pi)
     for P in ([[-2.0, 0.75, 1.0], [-2.0, 0.75, 1.5], [1.75, -1.0, 1.5]], [[0.0, 0.0], [0.0, 1.0], [2.0, 1.0]],
               [[1.0, 0.0, 0.0], [0.0, 0.0, 3.0], [-1.0, 0.0, 0.0]]):
@@ -472,9 +563,7 @@ def _three_aux(s):
         c = np.zeros(3)
     radius = float(np.linalg.norm(p[2] - c))
     v0, v1, v2 = p[0] - c, p[1] - c, p[2] - c
-    den = np.linalg.norm(v2) * np.linalg.norm(v0)
-    with np.errstate(all='ignore'):
-        thS = float(np.arccos(np.clip(np.dot(v2, v0) / (den if den else 1.0), -1, 1)))
+    thS = float(np.arctan2(np.linalg.norm(np.cross(v0, v2)), np.dot(v0, v2)))
     thL = 2 * pi - thS
     w2 = np.cross(p[0] - p[2], p[1] - p[2])
     nC = np.cross(v0, v1)
@@ -521,7 +610,7 @@ def model_line(s):
         return line('f_arc', CONSTS, s['theta'], s['r'], s['center'], s['normal'], s['xaxis'], arc_aux(s['theta'], ex), a, lam)
     if op == 'three':
         radius, thS, arcS, thL, arcL, aW, lamW, aC, lamC = _three_aux(s)
-        return line('f_three', CONSTS, TOL_CP, s['x'][0], s['x'][1], s['x'][2], radius, thS, arcS, thL, arcL, aW, lamW)
+        return line('f_three' if three_point_form() == 'signs' else 'f_three_dot', CONSTS, tol_cp(), s['x'][0], s['x'][1], s['x'][2], radius, thS, arcS, thL, arcL, aW, lamW)
     if op == 'square':
         return line('f_square', s['size'], s['ll'])
     if op == 'cube':
@@ -572,10 +661,6 @@ def compare(s, iv, mv):
     ib, ish, ifl, irat = iv
     mb, msh, mfl, mrat = mv
     ktol, rtol = KTOL, RTOL
-    if s['op'] == 'three' and abs(_three_aux(s)[1] - pi) < 1e-6:
-        # x0, x2 antipodal: arccos near -1 is accurate to sqrt(eps) only and theta / 2pi-theta are both ~pi
-        # (the code's sign test then looks at a rounding-noise vector); compare at that accuracy
-        ktol = rtol = 1e-6
     if len(ib) != len(mb):
         return 'number of bases: impl %d model %d' % (len(ib), len(mb))
     for k, (x, y) in enumerate(zip(ib, mb)):
@@ -669,6 +754,8 @@ def _swept(P, c, n):
 
 def _scale(s, *vals):
     c = s.get('center') or [0]
+    if s.get('nkind') == 'tiny-center':
+        return max([abs(float(v)) for v in c] + [abs(float(v)) for v in vals])
     return max([1.0] + [abs(float(v)) for v in c] + [abs(float(v)) for v in vals])
 
 
@@ -685,7 +772,11 @@ def oracle(sp, s):
             return _oracle_raise(s, e)
         if s.get('raises'):
             return ['expected an exception for inadmissible arguments, got an object']
-        return _ORACLES[s['op']](sp, s, obj)
+        f = _ORACLES[s['op']](sp, s, obj)
+        if f and s.get('nkind') == 'tiny-center':
+            # flip_and_move_plane_geometry skips the translation when np.allclose(center, 0) (absolute 1e-8)
+            f = ['[center-within-1e-8-of-origin-ignored] ' + m for m in f]
+        return f
 
 
 def _oracle_raise(s, e):
@@ -852,7 +943,7 @@ def _min_dist(c, x, lo, hi):
 def o_three(sp, s, c):
     p = [_v3(t) for t in s['x']]
     ctr, r, n = _circum(p)
-    sc = max(1.0, r, np.max(np.abs(p)))
+    sc = max(r, np.max(np.abs(p)))     # relative to the size of the configuration
     f = []
     want_dim = max(len(t) for t in s['x'])
     if c.dimension != want_dim:
@@ -866,6 +957,12 @@ def o_three(sp, s, c):
     v0, v2 = p[0] - ctr, p[2] - ctr
     half = np.linalg.norm(v0 + v2) < 1e-6 * r     # x0, x2 antipodal: arccos is accurate to sqrt(eps) only
     lab = '[three-point-arc-half-turn-accuracy] ' if half else '[three-point-arc-wrong-end] '
+    # the code compares the components of two normals with an ABSOLUTE tolerance: tiny configurations
+    import importlib
+    tol = float(importlib.import_module('splipy.state').controlpoint_absolute_tolerance)
+    w2 = np.cross(p[0] - p[2], p[1] - p[2])
+    if not half and np.all(np.abs(w2 - np.cross(v0, v2)) < tol) and np.dot(w2, np.cross(v0, v2)) < 0:
+        lab = '[three-point-arc-small-radius-absolute-tolerance] '
     bad_end = False
     if not np.linalg.norm(e - p[2]) <= RTOL * sc:
         bad_end = True
